@@ -197,6 +197,30 @@ def accessors_and_more(rep: Report, rng: random.Random):
             rep.violation({"family": "VmapMixture", "what": "NaN"}, "VmapMixture log_prob is NaN")
 
 
+def rejection_loop(rep: Report, rng: random.Random):
+    """Beyond the listed properties (DESIGN 4.11): the rejection loop of GaussianMixtureSimulator.sample_reference_posterior
+    (Rejection.tla): exactly num_samples rows are returned, all inside the Uniform prior's support, also when the
+    observation sits next to the prior bound so that many candidates are rejected."""
+    from flowjax.tasks import GaussianMixtureSimulator
+    r = tlc.run("Rejection", "MC_Rejection.cfg", workers=4, timeout=300)
+    if r.violated:
+        rep.machinery_failure(f"Rejection.tla violates {r.violated}")
+        return
+    rep.add("states", r.distinct)
+    rep.add("transitions", r.generated)
+    for i, (obs, n) in enumerate([((0.0, 0.0), 7), ((9.9, 9.9), 12), ((-10.0, 9.7), 5), ((10.4, 0.0), 9)]):
+        sim = GaussianMixtureSimulator()
+        try:
+            s = np.asarray(sim.sample_reference_posterior(jr.PRNGKey(rng.randrange(2**31)), jnp.asarray(obs), n))
+        except Exception as e:  # noqa: BLE001
+            rep.violation({"task": "sample_reference_posterior", "observation": obs, "error": type(e).__name__}, f"{type(e).__name__}: {str(e)[:200]}")
+            continue
+        rep.count(1, ("rejection", obs, n))
+        if s.shape != (n, 2) or not np.all(np.abs(s) <= 10.0):
+            rep.violation({"task": "sample_reference_posterior", "observation": obs},
+                          f"sample_reference_posterior(observation={obs}, num_samples={n}) returned shape {s.shape}, max |value| {np.abs(s).max() if s.size else None}")
+
+
 def main():
     ap = argparse.ArgumentParser()
     ap.add_argument("--replay")
@@ -228,6 +252,7 @@ def main():
         rep.sample({"kind": "spec->code", "tlc_case": c}, 4)
         check_case(rep, c)
     accessors_and_more(rep, rng)
+    rejection_loop(rep, rng)
     rep.set("exhaustive", True)
     rep.set("rule", "one case per (family, parameter configuration, point) state of the TLC run, judged against the textbook "
                     "term; plus accessors, MultivariateNormal, mixtures; distinct by those keys")
